@@ -366,3 +366,85 @@ def front(fcp):
     ds = ["{| fd_name := %s; fd_fields := %s |}" % (cstr(d.name), fdict(d.fields)) for d in fcp.devices]
     return "{| f_structs := %s; f_enums := %s; f_impls := %s; f_services := %s; f_devices := %s |}" % (
         clist(ss), clist(es), clist(ims), clist(svs), clist(ds))
+
+
+# ---------------------------------------------------------------------------
+# front-profile descriptions (harness/printer.py) as Front.Parser items, and printer tokens as Front.Lexer tokens
+
+def pval(v):
+    if isinstance(v, bool):
+        raise TypeError(v)
+    if isinstance(v, int):
+        return f"(PVInt {cz(v)})"
+    if v[0] == "float":
+        return f"(PVFloat {cstr(v[1])})"
+    if v[0] in ("str", "ident"):
+        return f"(PVStr {cstr(v[1])})"
+    if v[0] == "arr":
+        return f"(PVArr {clist(pval(x) for x in v[1])})"
+    raise TypeError(v)
+
+
+def ppty(t):
+    k = t[0]
+    if k == "u":
+        return f"(PTU {cnat(t[1])})"
+    if k == "i":
+        return f"(PTI {cnat(t[1])})"
+    if k == "f32":
+        return "PTF32"
+    if k == "f64":
+        return "PTF64"
+    if k == "str":
+        return "PTStr"
+    if k in ("enum", "struct", "ref"):
+        return f"(PTRef {cstr(t[1])})"
+    if k == "arr":
+        return f"(PTArr {ppty(t[1])} (PVInt {cz(t[2])}))"
+    if k == "dyn":
+        return f"(PTDyn {ppty(t[1])})"
+    if k == "opt":
+        return f"(PTOpt {ppty(t[1])})"
+    raise TypeError(t)
+
+
+def pitem(it):
+    k = it[0]
+    kv = lambda kk, vv: cpair(cstr(kk), pval(vv))
+    if k == "struct":
+        fs = clist("{| pf_name := %s; pf_id := (PVInt %s); pf_type := %s; pf_params := %s |}" % (
+            cstr(f["name"]), cz(f["id"]), ppty(f["type"]),
+            clist("{| pp_name := %s; pp_args := %s |}" % (cstr(pn), clist(pval(a) for a in pargs)) for pn, pargs in f.get("params", [])))
+            for f in it[2])
+        return f"(IStruct {cstr(it[1])} {fs})"
+    if k == "enum":
+        return f"(IEnum {cstr(it[1])} {clist(kv(n, v) for n, v in it[2])})"
+    if k == "impl":
+        _, proto, ty, name, _as, body = it
+        bs = clist(f"(PExt {cstr(b[1])} {pval(b[2])})" if b[0] == "ext" else f"(PSig {cstr(b[1])} {clist(kv(a, c) for a, c in b[2])})" for b in body)
+        nm = "None" if name is None else f"(Some {cstr(name)})"
+        return f"(IImpl {cstr(proto)} {cstr(ty)} {nm} {bs})"
+    if k == "service":
+        ms = clist("{| pm_name := %s; pm_input := %s; pm_id := (PVInt %s); pm_output := %s |}" % (cstr(m[0]), cstr(m[1]), cz(m[2]), cstr(m[3])) for m in it[3])
+        return f"(IService {cstr(it[1])} (PVInt {cz(it[2])}) {ms})"
+    if k == "device":
+        return f"(IDevice {cstr(it[1])} {clist(kv(a, c) for a, c in it[2])})"
+    if k == "mod":
+        return f"(IMod {clist(cstr(p) for p in it[1])})"
+    raise TypeError(it)
+
+
+_INT = __import__("re").compile(r"^[+-]?\d+$")
+_PUNCT = set("{}[]():,;@|=.")
+
+
+def ptoken(t):
+    if t.startswith('"'):
+        return f"(TStr {cstr(t[1:-1])})"
+    if len(t) == 1 and t in _PUNCT:
+        return f'(TPunct "{t}"%char)'
+    if _INT.match(t):
+        return f"(TInt {cz(int(t))})"
+    if t[0] in "+-.0123456789":
+        return f"(TFloat {cstr(t)})"
+    return f"(TId {cstr(t)})"
